@@ -68,3 +68,21 @@ Definition check_score (c : string * Z * Z * option (Z * Z)) : bool :=
              | _, _ => false
              end
   end.
+
+(* sectional.resolve: ((group, feedback) list of the triggered feedback, suppress calls, observed (group, outcome) list) *)
+Definition the_sectional_at := sectional_at gen_category_priority gen_aliases gen_offset.
+Definition check_group (tagged : list (nat * fb)) (calls : list supp_call) (ge : nat * expected) : bool :=
+  let '(g, e) := ge in
+  match the_sectional_at tagged calls g, e with
+  | Ok r, ExpOk used correct sn sd isdef pos _ scores =>
+      oz_eqb (r_used r) used && Bool.eqb (r_correct r) correct
+      && Qeq_bool (r_score r) (Qmake sn (Z.to_pos sd)) && Bool.eqb (r_is_default r) isdef
+      && zs_eqb (r_positives r) pos && strs_eqb (r_scores r) scores
+  | Err c, ExpRaise c' => String.eqb c c'
+  | _, _ => false
+  end.
+Definition check_sectional (c : list (nat * fb) * list supp_call * list (nat * expected)) : bool :=
+  let '(tagged, calls, obs) := c in
+  forallb (check_group tagged calls) obs
+  && Nat.eqb (List.length obs) (List.length (sect_groups tagged))
+  && forallb (fun g => existsb (fun ge => Nat.eqb (fst ge) g) obs) (sect_groups tagged).
